@@ -1052,6 +1052,9 @@ func Mutate(c *kit.Chooser, data []byte) ([]byte, string) {
 	}
 	if c.Chance("structured", 1, 2) {
 		if out, how, ok := MutateStructured(c, data); ok {
+			if how == "size-attack-chain" {
+				return out, how
+			}
 			return out, "noncanonical-" + how
 		}
 	}
